@@ -9,6 +9,9 @@ import (
 	"fmt"
 	"go/types"
 	"math"
+	"os"
+	"path/filepath"
+	"sync"
 	"math/bits"
 	"sort"
 	"strings"
@@ -61,7 +64,10 @@ func init() {
 			i.ex.registerVar(v, vals)
 		}
 		c := i.ts.And(i.ts.Cmp(OpSLE, i.ts.BV(uint64(int64(lo)), 64), v), i.ts.Cmp(OpSLE, v, i.ts.BV(uint64(int64(hi)), 64)))
-		i.assume(c, fr)
+		// the range is part of the input's definition: always tell the solver
+		// (the domain pass knows it through the candidate list)
+		i.ex.taken = append(i.ex.taken, dec{v: 1, forced: true})
+		i.addConstraint(c)
 		return v
 	})
 	reg(zz+"Choice", func(fr *frame, args []value) value {
@@ -70,6 +76,16 @@ func init() {
 		k := i.choice(n)
 		i.ex.inputs = append(i.ex.inputs, inputRec{Name: args[0].(string), Kind: "choice", Val: int64(k)})
 		return k
+	})
+	reg(zz+"ChoiceOf", func(fr *frame, args []value) value {
+		i := fr.i
+		opts := args[1].([]value)
+		if len(opts) == 0 {
+			panic(pathEnd{kind: "infeasible", msg: "ChoiceOf(empty)"})
+		}
+		k := i.choice(len(opts))
+		i.ex.inputs = append(i.ex.inputs, inputRec{Name: args[0].(string), Kind: "choiceof", Val: int64(k), Str: describeStr(opts[k])})
+		return opts[k]
 	})
 	reg(zz+"Assume", func(fr *frame, args []value) value { fr.i.assume(args[0], fr); return nil })
 	reg(zz+"Assert", func(fr *frame, args []value) value {
@@ -272,6 +288,9 @@ func init() {
 		"os/signal.signal_enable", "os/signal.signal_disable", "os/signal.signal_ignore", "os/signal.loop"} {
 		reg(n, nop)
 	}
+	// the Unicode confusables table (117M interpreted instructions to parse at
+	// init, per worker) is not used by goflow: left empty
+	reg("github.com/nyaruka/gocommon/stringsx.init#1", nop)
 	reg("internal/godebug.(*Setting).Value", func(fr *frame, args []value) value { return "" })
 	reg("runtime.GOMAXPROCS", func(fr *frame, args []value) value { return 1 })
 	reg("runtime.NumCPU", func(fr *frame, args []value) value { return 1 })
@@ -312,6 +331,43 @@ func init() {
 		st := (*cell).(structure)
 		fr.i.tr.set(&st[0], "UTC")
 		return nil
+	})
+	reg("time.LoadLocation", func(fr *frame, args []value) value {
+		i := fr.i
+		tp := i.prog.ImportedPackage("time")
+		name, ok := args[0].(string)
+		if !ok {
+			// a name with symbolic bytes: it can only load if it equals one of the
+			// zone names of that length that exist on this machine (decided per
+			// candidate); otherwise the load fails like for any unknown name
+			n := strLen(args[0])
+			found := ""
+			for _, cand := range zoneNames() {
+				if len(cand) == n && i.truth(i.strEq(args[0], cand), fr, "zone-name") {
+					found = cand
+					break
+				}
+			}
+			if found == "" {
+				return tuple{(*value)(nil), i.mkError("unknown time zone")}
+			}
+			name = found
+		}
+		switch name {
+		case "", "UTC":
+			return tuple{i.globals[tp.Var("utcLoc")], iface{}}
+		case "Local":
+			return tuple{i.globals[tp.Var("localLoc")], iface{}}
+		}
+		if strings.Contains(name, "..") || strings.HasPrefix(name, "/") || strings.Contains(name, "\\") {
+			return tuple{(*value)(nil), i.mkError("time: invalid location name")}
+		}
+		data, err := os.ReadFile("/usr/share/zoneinfo/" + name)
+		if err != nil {
+			return tuple{(*value)(nil), i.mkError("unknown time zone " + name)}
+		}
+		// the zone file is parsed by the real time.LoadLocationFromTZData
+		return i.callFn(fr, tp.Func("LoadLocationFromTZData"), name, bytesValue(data))
 	})
 	reg("time.runtimeNano", func(fr *frame, args []value) value { fr.i.clock++; return int64(1000000000 * fr.i.clock) })
 	reg("runtime.nanotime", func(fr *frame, args []value) value { fr.i.clock++; return int64(1000000000 * fr.i.clock) })
@@ -483,4 +539,24 @@ func (i *Interp) indexStr(fr *frame, s, sub value) value {
 		}
 	}
 	return -1
+}
+
+var zoneNamesCache []string
+var zoneNamesOnce sync.Once
+
+func zoneNames() []string {
+	zoneNamesOnce.Do(func() {
+		root := "/usr/share/zoneinfo"
+		filepath.Walk(root, func(p string, info os.FileInfo, err error) error {
+			if err == nil && !info.IsDir() {
+				rel, _ := filepath.Rel(root, p)
+				if len(rel) <= 4 && !strings.Contains(rel, ".") {
+					zoneNamesCache = append(zoneNamesCache, rel)
+				}
+			}
+			return nil
+		})
+		sort.Strings(zoneNamesCache)
+	})
+	return zoneNamesCache
 }
